@@ -18,7 +18,7 @@ RULE = (
     "cases = (shape N in 2..4 [thorough 2..5], sizes >= R [size 1 only with R = 1], rank R in 1..3, data = rank-R' Kruskal "
     "model + relative noise held as tensor / sptensor (masked, stored order permuted) / ttensor / sumtensor(tensor + "
     "ktensor [+ sptensor]), guess in {given normal, given uniform, 'random' under np_seed, 'nvecs'}, dimorder any "
-    "permutation or default, optdims any non-empty subset or default, maxiters, stoptol in {0,1e-4,1e-2}, fixsigns, "
+    "permutation or default, optdims any non-empty subset or default, maxiters, stoptol in {0,1e-4,1e-2,0.5}, fixsigns, "
     "printitn 0..3) drawn by Hypothesis (bulk numbers expanded from drawn integer seeds); one enumerated cell runs every "
     "(dimorder, optdims) pair for N = 3 (thorough: also N = 4).  Cases whose unfoldings have sigma_R/sigma_1 < 1e-6 are "
     "skipped (outside the quantifier).  Oracle: NumPy on the dense array the data denotes (residual, fit, normal "
@@ -43,16 +43,31 @@ ASSUMPTIONS = [
 ]
 
 
+def _sparse_nvecs(case):
+    return case.get("holder") == "sptensor" and case.get("init") == "nvecs"
+
+
 def _sparse_nvecs_complex(case):
     """sptensor.nvecs goes through the non-symmetric ARPACK driver (complex output) when r < size - 1 in some mode."""
-    return (
-        case.get("holder") == "sptensor"
-        and case.get("init") == "nvecs"
-        and any(int(case["R"]) < int(s) - 1 for s in case["shape"])
-    )
+    sh = [int(s) for s in case["shape"]]
+    return _sparse_nvecs(case) and 1 not in sh and any(int(case["R"]) < s - 1 for s in sh)
 
 
-PREDICATES = {"sparse_nvecs_complex": _sparse_nvecs_complex}
+def _sparse_nvecs_singleton(case):
+    """sptensor.nvecs squeezes away a genuine singleton mode (the mode itself or all the others)."""
+    sh = [int(s) for s in case["shape"]]
+    return _sparse_nvecs(case) and 1 in sh and any(s > 1 for s in sh)
+
+
+def _sparse_nvecs_all_singleton(case):
+    return _sparse_nvecs(case) and all(int(s) == 1 for s in case["shape"])
+
+
+PREDICATES = {
+    "sparse_nvecs_complex": _sparse_nvecs_complex,
+    "sparse_nvecs_singleton": _sparse_nvecs_singleton,
+    "sparse_nvecs_all_singleton": _sparse_nvecs_all_singleton,
+}
 
 # --------------------------------------------------------------------------
 # generator
@@ -107,7 +122,7 @@ def _case_strategy(holder):
             c["optdims"] = list(draw(st.permutations(range(N))))[:k]
         c["form"] = draw(st.sampled_from(["list", "array", "tuple"]))
         c["maxiters"] = draw(st.integers(1, 6 if tier == "quick" else 8))
-        c["stoptol"] = draw(st.sampled_from([0.0, 1e-4, 1e-2]))
+        c["stoptol"] = draw(st.sampled_from([0.0, 1e-4, 1e-2, 0.5]))
         c["fixsigns"] = draw(st.booleans())
         c["printitn"] = draw(st.integers(0, 3))
         return c
@@ -388,23 +403,23 @@ def printed_delta_ok(printed, value):
 # --------------------------------------------------------------------------
 
 
-@cell("C09/cp_als/tensor", strategy=_case_strategy("tensor"), quick=160, thorough=3000, shards=(4, 16))
+@cell("C09/cp_als/tensor", strategy=_case_strategy("tensor"), quick=600, thorough=16000, shards=(4, 16))
 def cp_als_tensor(ctx, case):
     _body(ctx, case)
 
 
-@cell("C09/cp_als/sptensor", strategy=_case_strategy("sptensor"), quick=100, thorough=1600, shards=(4, 16))
+@cell("C09/cp_als/sptensor", strategy=_case_strategy("sptensor"), quick=400, thorough=8000, shards=(4, 16))
 def cp_als_sptensor(ctx, case):
     ctx.label(f"density-{case['density']}", "stored-" + case["stored"])
     _body(ctx, case)
 
 
-@cell("C09/cp_als/ttensor", strategy=_case_strategy("ttensor"), quick=100, thorough=2000, shards=(4, 16))
+@cell("C09/cp_als/ttensor", strategy=_case_strategy("ttensor"), quick=400, thorough=10000, shards=(4, 16))
 def cp_als_ttensor(ctx, case):
     _body(ctx, case)
 
 
-@cell("C09/cp_als/sumtensor", strategy=_case_strategy("sumtensor"), quick=100, thorough=2000, shards=(4, 16))
+@cell("C09/cp_als/sumtensor", strategy=_case_strategy("sumtensor"), quick=400, thorough=10000, shards=(4, 16))
 def cp_als_sumtensor(ctx, case):
     ctx.label("three-parts" if case.get("sum_sparse") else "two-parts")
     _body(ctx, case)
